@@ -49,6 +49,12 @@ var actionlintBin = func() string {
 }()
 
 func runActionlint(cwd string, args ...string) (diags []c15Diag, exit int, stderr string, err error) {
+	diags, _, exit, stderr, err = runActionlintFiles(cwd, args...)
+	return
+}
+
+// runActionlintFiles also returns the file each diagnostic is attributed to (as printed).
+func runActionlintFiles(cwd string, args ...string) (diags []c15Diag, files []string, exit int, stderr string, err error) {
 	cmd := exec.Command(actionlintBin, append([]string{"-format", "{{json .}}"}, args...)...)
 	cmd.Dir = cwd
 	var so, se bytes.Buffer
@@ -60,7 +66,7 @@ func runActionlint(cwd string, args ...string) (diags []c15Diag, exit int, stder
 		if ee, ok := e.(*exec.ExitError); ok {
 			exit = ee.ExitCode()
 		} else {
-			return nil, -1, "", e
+			return nil, nil, -1, "", e
 		}
 	}
 	stderr = se.String()
@@ -70,15 +76,17 @@ func runActionlint(cwd string, args ...string) (diags []c15Diag, exit int, stder
 			Line    int    `json:"line"`
 			Column  int    `json:"column"`
 			Kind    string `json:"kind"`
+			File    string `json:"filepath"`
 		}
 		if je := json.Unmarshal(so.Bytes(), &fs); je != nil {
-			return nil, exit, stderr, fmt.Errorf("stdout is not JSON: %v: %q", je, so.String())
+			return nil, nil, exit, stderr, fmt.Errorf("stdout is not JSON: %v: %q", je, so.String())
 		}
 		for _, f := range fs {
 			diags = append(diags, c15Diag{f.Line, f.Column, f.Message, f.Kind})
+			files = append(files, f.File)
 		}
 	}
-	return diags, exit, stderr, nil
+	return diags, files, exit, stderr, nil
 }
 
 // globMatch: doublestar-style matching for the generated patterns (** = any number of segments,
@@ -274,6 +282,40 @@ func checkIgnoreAndCwd(c *c15Case) (key, msg string, stats map[string]int) {
 			return "C15/exit-status", fmt.Sprintf("%s: exit status %d but %d diagnostics remain (want %d)\n%s", iv.name, exit, len(got), wantExit, c15Show(c)), stats
 		}
 	}
+	// two repositories in one invocation: the file of the sibling repository (whose configuration
+	// ignores everything) next to the observed file, in both argument orders. Every file is filtered
+	// by the configuration of its own repository.
+	if c.Sibling != "" && !c.BadRegex && !c.BadFlag {
+		sfile := w.Write(filepath.Join(c.Sibling, ".github/workflows/s.yml"), c.Workflow)
+		for _, args := range [][]string{{file, sfile}, {sfile, file}} {
+			got, files, exit, stderr, err := runActionlintFiles(w.Root, append(append([]string{}, flags...), args...)...)
+			if err != nil || exit == 2 || exit == 3 {
+				return "C15/run-failed", fmt.Sprintf("two repositories: %v exit %d stderr %q", err, exit, stderr), stats
+			}
+			stats["invocations"]++
+			stats["two-repository-invocations"]++
+			var mine, theirs []c15Diag
+			for i, d := range got {
+				if strings.HasPrefix(filepath.ToSlash(files[i]), filepath.ToSlash(c.Sibling)+"/") {
+					theirs = append(theirs, d)
+				} else {
+					mine = append(mine, d)
+				}
+			}
+			same := len(mine) == len(want)
+			if same {
+				for i := range mine {
+					if mine[i] != want[i] {
+						same = false
+					}
+				}
+			}
+			if !same || len(theirs) > 0 {
+				r0, _ := filepath.Rel(w.Root, args[0])
+				return "C15/file-filtered-by-the-configuration-of-another-repository", fmt.Sprintf("two repositories in one invocation, first argument %s\nobserved file: expected after filtering:\n%sgot:\n%ssibling file (its configuration ignores everything) got:\n%s%s", r0, diagsString(want), diagsString(mine), diagsString(theirs), c15Show(c)), stats
+			}
+		}
+	}
 	return "", "", stats
 }
 
@@ -320,7 +362,7 @@ func TestC15(t *testing.T) {
 		t.Fatalf("actionlint binary not built: %v", err)
 	}
 	hx.Main(t, "C15", func(r *hx.Run) {
-		r.Rule = "temporary world: a repository (optionally nested two levels down, optionally next to a sibling repository whose name shares its prefix and whose configuration ignores everything) with a workflow producing 0-8 distinct diagnostics, a configuration with 0-3 `paths` globs (matching all yaml, the workflows directory, the exact file, nothing) each with ignore regexes, and 0-3 -ignore regexes; regexes are escaped fragments of the unfiltered messages (matching none/some/all), also with inline flags such as (?i). Each world is run through the built actionlint binary from 16 (cwd, path spelling) combinations: repository root / parent / nested / unrelated directory x relative / ./ / absolute / no argument, plus four spellings through a symbolic link to the repository root. Oracle: output = unfiltered list (same world without configuration and -ignore) minus messages matched by an applicable pattern (glob matched against the repository-relative path by the harness), identical for all combinations; exit status 1 iff diagnostics remain, 0 iff none, 3 for an invalid regex, 2 for an invalid flag. Non-trivial = >= 1 diagnostic removed and >= 1 kept, or a matching `paths` glob with cwd != repository root; distinct = case hash."
+		r.Rule = "temporary world: a repository (optionally nested two levels down, optionally next to a sibling repository whose name shares its prefix and whose configuration ignores everything) with a workflow producing 0-8 distinct diagnostics, a configuration with 0-3 `paths` globs (matching all yaml, the workflows directory, the exact file, nothing) each with ignore regexes, and 0-3 -ignore regexes; regexes are escaped fragments of the unfiltered messages (matching none/some/all), also with inline flags such as (?i). Each world is run through the built actionlint binary from 16 (cwd, path spelling) combinations: repository root / parent / nested / unrelated directory x relative / ./ / absolute / no argument, plus four spellings through a symbolic link to the repository root; when a sibling repository exists, also the observed file together with a file of the sibling in one invocation (both orders). Oracle: output = unfiltered list (same world without configuration and -ignore) minus messages matched by an applicable pattern (glob matched against the repository-relative path by the harness), identical for all combinations; exit status 1 iff diagnostics remain, 0 iff none, 3 for an invalid regex, 2 for an invalid flag. Non-trivial = >= 1 diagnostic removed and >= 1 kept, or a matching `paths` glob with cwd != repository root; distinct = case hash."
 		r.Assumptions = []string{"file names are plain ASCII", "regexes are built from escaped message fragments so that the reference (Go regexp on messages) cannot disagree about regexp semantics"}
 		r.Check(t, "worlds", hx.N(150, 4000), func(rt *rapid.T) {
 			var wfb strings.Builder
